@@ -36,6 +36,7 @@ pub mod c15fwd;
 pub mod c16;
 pub mod c16http;
 pub mod c17;
+pub mod c17stall;
 pub mod c18;
 pub mod c19;
 pub mod c19proc;
